@@ -9,8 +9,13 @@ where
     T: Clone + Copy,
 {
     fn from(sets: &'a Vec<Vec<T>>) -> Self {
-        let final_pos: Vec<usize> = sets.iter().map(|v| v.len() - 1).collect();
-        let pos: Option<Vec<usize>> = Some(vec![0; sets.len()]);
+        // an empty set makes the whole product empty (and `len - 1` would underflow)
+        let final_pos: Vec<usize> = sets.iter().map(|v| v.len().saturating_sub(1)).collect();
+        let pos: Option<Vec<usize>> = if sets.iter().any(|v| v.is_empty()) {
+            None
+        } else {
+            Some(vec![0; sets.len()])
+        };
         MultiSet {
             sets,
             pos,
